@@ -24,6 +24,7 @@ REGISTRY = {
     "C07": ("vf.props.meta_family", "C07"),
     "C11": ("vf.props.cli_family", "C11"),
     "C12": ("vf.props.cli_family", "C12"),
+    "C20": ("vf.props.cli_family", "C20"),
 }
 
 
